@@ -304,7 +304,7 @@ func drawMessage(t *rapid.T, idx int) *gmsg {
 	m := &gmsg{Idx: idx}
 	l := fmt.Sprintf("m%d", idx)
 
-	m.Eight = chance(t, l+"-8bit", 1, 8)
+	m.Eight = chance(t, l+"-8bit", 1, 4)
 	multipart := chance(t, l+"-multipart", 1, 6)
 
 	add := func(name, raw string) { m.Fields = append(m.Fields, field{Name: name, Raw: raw}) }
